@@ -183,7 +183,7 @@ func genChain(r *core.Rand, mode string) (*chainCase, []string) {
 		base = append(base, rig.Field{Name: "Content-Length", Value: fmt.Sprint(len(body))})
 	}
 	if r.Chance(25) {
-		base = append(base, rig.Field{Name: "Connection", Value: core.Pick(r, []string{"close", "keep-alive", "x-custom"})})
+		base = append(base, rig.Field{Name: "Connection", Value: core.Pick(r, []string{"close", "keep-alive", "x-custom", "Via", "close, via", "x-custom, VIA"})})
 	}
 	q.Fields = insertFields(r, base, via)
 	cc.Request = q
